@@ -29,6 +29,16 @@ CHECKS = {
          "Model checking of the planner design plus conformance of the real service on enumerated configurations: a violation is an observed subscription list or reset payload that fails a clause of the reference.",
          "The recording connection stands for the NATS server; NATS subject matching is the reference's NMatches; ownership entries that are not valid subjects are not judged.",
          "4.2 C09"),
+ "C15": ("qevent", "model_checking",
+         "TLA+ query-event specification (ResQueryEvent.tla: subscribe, deliver, listener take/enqueue, timer, drain, end-with-nil, callback, release): TLC model-checks AtMostOneReply/NilAtMostOnce/NilLast/FailedSub and the liveness properties Answered/Ends/Released; counterexamples of the shipped design (ListenerEndsQuery=FALSE) and tlc -simulate behaviours of the repaired design are replayed on the real service through gates in the listener and the expiry path; random histories, subscription failures, long histories; one record per real query event judged by TLC (TraceQueryObs.tla)",
+         "Exhaustive model checking (3 requests, channel capacity 2, failing subscription) with safety and liveness, bound to the code by gate replay of model behaviours and TLC-judged records of real query events; a violation is a real query event with a missing/duplicate reply, a missing, repeated or non-final nil call, or a listener goroutine left running.",
+         "The recording connection stands for NATS (a drained subscription keeps its channel); the worker group is abstracted to a FIFO (C01/C02); release is observed in the goroutine dump.",
+         "4.0 C15"),
+ "C16": ("racer", "exploration",
+         "Go race detector on a -race build of the real library driven by concurrent client programs (requests of all types, With*/Reset*/Token* calls, store transactions and index queries on foreign goroutines, query events, Shutdown at random moments) with yield-only instrumentation hooks; the shared-field/lock discipline these programs exercise is the one modelled in ResSched.tla (every field an action touches is touched inside the action's critical section or is atomic)",
+         "Exploration: the race detector reports unsynchronised conflicting accesses that occur in the explored executions (seeded; perturbed at every hook point outside critical sections). TLA+ cannot decide memory-level races; it contributes the lock discipline and the schedules.",
+         "Only races that happen in explored executions are reported; reports whose access stacks contain no go-res frame are attributed to dependencies; hooks perform no synchronisation.",
+         "4.0 C16"),
  "C17": ("pattern", "model_checking",
          "TLA+ reference grammar (ResPattern.tla): TLC model-checks the grammar's relations exhaustively over all string pairs up to the bound, and judges every recorded call of the real pattern operations (bounded-exhaustive + seeded random inputs) against the reference (TracePattern.tla)",
          "Bounded-exhaustive model checking of the token-wise grammar plus conformance of every real Pattern/validity operation result on all strings up to the bound; a violation is a real call whose result differs from the reference.",
